@@ -1,0 +1,87 @@
+//go:build verif
+
+// Verification hooks. Compiled only with `-tags verif`; read-only accessors of
+// private per-stream state plus the target of the scheduling-point calls that the
+// /verif instrumenter splices into scratch copies of the sources (never into this tree).
+
+package hessian
+
+import (
+	"reflect"
+	"sort"
+)
+
+// VerifEncoderState returns the class names defined so far and the kinds of the
+// registered references ordered by ordinal.
+func VerifEncoderState(e *Encoder) (classes []string, refKinds []string, nameMapLen int) {
+	for _, c := range e.clsDefList {
+		classes = append(classes, c.FullClassName)
+	}
+	type kv struct {
+		i int
+		k reflect.Kind
+	}
+	var l []kv
+	for _, r := range e.refMap {
+		l = append(l, kv{r.index, r.kind})
+	}
+	sort.Slice(l, func(a, b int) bool { return l[a].i < l[b].i })
+	for _, x := range l {
+		refKinds = append(refKinds, x.k.String())
+	}
+	return classes, refKinds, len(e.nameMap)
+}
+
+// VerifDecoderState returns the type list, the class list (name and field names)
+// and the kinds held in the reference list.
+func VerifDecoderState(d *Decoder) (types []string, classes []string, refKinds []string, typMapLen int) {
+	types = append(types, d.typList...)
+	for _, c := range d.clsDefList {
+		s := c.FullClassName + "("
+		for i, f := range c.FieldName {
+			if i > 0 {
+				s += ","
+			}
+			s += f
+		}
+		classes = append(classes, s+")")
+	}
+	for _, r := range d.refList {
+		if !r.IsValid() {
+			refKinds = append(refKinds, "invalid")
+			continue
+		}
+		refKinds = append(refKinds, r.Type().String())
+	}
+	return types, classes, refKinds, len(d.typMap)
+}
+
+// VerifSerializerParts exposes the encoder and decoder inside a Serializer.
+func VerifSerializerParts(s Serializer) (*Encoder, *Decoder) {
+	if gh, ok := s.(*goHessian); ok {
+		return gh.encoder, gh.decoder
+	}
+	return nil, nil
+}
+
+// VerifPoolLen returns the number of idle objects and the capacity of a pool.
+func VerifPoolLen(p Pool) (idle, capacity int) {
+	if op, ok := p.(*objectPool); ok {
+		return len(op.cached), cap(op.cached)
+	}
+	return -1, -1
+}
+
+// VerifNewPool builds a pool with a caller-supplied factory.
+func VerifNewPool(size int, f func() interface{}) Pool {
+	return newPool(size, f)
+}
+
+// VerifPointHook, when set, is called at every instrumented statement.
+var VerifPointHook func(int)
+
+func verifPoint(id int) {
+	if h := VerifPointHook; h != nil {
+		h(id)
+	}
+}
